@@ -318,17 +318,18 @@ NPV_CODE = r"""
 #include <dune/python/common/numpyvector.hh>
 // operations of a NumPy-backed C++ vector (Dune::Python::NumPyVector wraps the array without copying)
 //   op 0: x *= k      op 1: x[i] = k      op 2: x.axpy(k, y)      op 3: x += y      op 4: x[i] += i for all i
+//   (the writing operations return the one norm the vector shows afterwards)
 //   op 5: one_norm    op 6: infinity_norm op 7: two_norm2         op 8: size        op 9: x[i]
 double c20npv ( pybind11::array_t< double > &a, int op, double k, int i, pybind11::array_t< double > &b )
 {
   Dune::Python::NumPyVector< double > x( a );
   switch( op )
   {
-  case 0: x *= k; return 0;
-  case 1: x[ i ] = k; return 0;
-  case 2: { Dune::Python::NumPyVector< double > y( b ); x.axpy( k, y ); return 0; }
-  case 3: { Dune::Python::NumPyVector< double > y( b ); x += y; return 0; }
-  case 4: for( std::size_t j = 0; j < x.size(); ++j ) x[ j ] += j; return 0;
+  case 0: x *= k; return x.one_norm();
+  case 1: x[ i ] = k; return x.one_norm();
+  case 2: { Dune::Python::NumPyVector< double > y( b ); x.axpy( k, y ); return x.one_norm(); }
+  case 3: { Dune::Python::NumPyVector< double > y( b ); x += y; return x.one_norm(); }
+  case 4: for( std::size_t j = 0; j < x.size(); ++j ) x[ j ] += j; return x.one_norm();
   case 5: return x.one_norm();
   case 6: return x.infinity_norm();
   case 7: return x.two_norm2();
@@ -375,7 +376,90 @@ double c20npvint ( pybind11::array_t< long > &a, int op, double k, int i )
 }
 """
 
-STATE = types.SimpleNamespace(np=None, dc=None, FV={}, npv=None, npvnew=None, npvint=None)
+HELPER_CODE = r"""
+#include <cstddef>
+#include <dune/python/common/numpyvector.hh>
+#include <dune/python/pybind11/pybind11.h>
+#include <dune/python/pybind11/numpy.h>
+// the same operations as c20npv, but the NumPyVector is constructed from the Python buffer object itself (NumPy array of
+// any dtype, array.array, FieldVector, ...), i.e. through NumPyVector( pybind11::buffer ): a buffer of doubles is
+// wrapped (shared memory), a buffer of another item type is converted into an array the vector owns
+static double npvbuf ( pybind11::buffer a, int op, double k, int i, pybind11::buffer b )
+{
+  Dune::Python::NumPyVector< double > x( a );
+  switch( op )
+  {
+  case 0: x *= k; return x.one_norm();
+  case 1: x[ i ] = k; return x.one_norm();
+  case 2: { Dune::Python::NumPyVector< double > y( b ); x.axpy( k, y ); return x.one_norm(); }
+  case 3: { Dune::Python::NumPyVector< double > y( b ); x += y; return x.one_norm(); }
+  case 4: for( std::size_t j = 0; j < x.size(); ++j ) x[ j ] += j; return x.one_norm();
+  case 5: return x.one_norm();
+  case 6: return x.infinity_norm();
+  case 7: return x.two_norm2();
+  case 8: return x.size();
+  case 9: return x[ i ];
+  }
+  return -1;
+}
+
+PYBIND11_MODULE( c20helper, module )
+{
+  module.def( "npvbuf", &npvbuf );
+}
+"""
+
+# element types of the buffers handed to the bindings: name -> (code of the Lean model, NumPy dtype | None,
+# array.array typecode | None, smallest value, largest value, integer?)   code 0 = double, 8 = read-only doubles
+DTYPES = {
+    "f8": (0, "float64", None, -(1 << 24), 1 << 24, False), "i8": (1, "int64", None, -(1 << 24), 1 << 24, True),
+    "i4": (2, "int32", None, -(1 << 24), 1 << 24, True), "i2": (3, "int16", None, -32768, 32767, True),
+    "i1": (4, "int8", None, -128, 127, True), "u1": (5, "uint8", None, 0, 255, True),
+    "u2": (6, "uint16", None, 0, 65535, True), "f4": (7, "float32", None, -(1 << 24), 1 << 24, False),
+    "ro": (8, "float64", None, -(1 << 24), 1 << 24, False),
+    "ad": (0, None, "d", -(1 << 24), 1 << 24, False), "al": (1, None, "l", -(1 << 24), 1 << 24, True),
+    "ai": (2, None, "i", -(1 << 24), 1 << 24, True), "ah": (3, None, "h", -32768, 32767, True),
+    "ab": (4, None, "b", -128, 127, True), "aB": (5, None, "B", 0, 255, True),
+    "aH": (6, None, "H", 0, 65535, True), "af": (7, None, "f", -(1 << 24), 1 << 24, False),
+}
+LAYOUTS = ("c", "s2", "col", "r", "r2")     # contiguous, every 2nd entry, column of a 2-d array, reversed, reversed every 2nd
+
+
+def make_buffer(np, dt, lay, vals):
+    """a fresh Python buffer object of element type `dt` and memory layout `lay` showing the numbers `vals`"""
+    code, npdt, tc, lo, hi, isint = DTYPES[dt]
+    n = len(vals)
+    conv = [int(v) for v in vals] if isint else [float(v) for v in vals]
+    if tc is not None:
+        if lay != "c":
+            raise ValueError("layout of array.array")
+        return pyarray.array(tc, conv)
+    if lay == "c":
+        arr = np.array(conv, dtype=npdt)
+    elif lay == "s2":
+        base = np.full(max(1, 2 * n), 77, dtype=npdt)
+        arr = base[::2][:n]
+        arr[...] = conv
+    elif lay == "col":
+        base = np.full((max(1, n), 3), 77, dtype=npdt)
+        arr = base[:n, 1]
+        arr[...] = conv
+    elif lay == "r":
+        base = np.full(max(1, n), 77, dtype=npdt)
+        arr = base[::-1][:n]
+        arr[...] = conv
+    elif lay == "r2":
+        base = np.full(max(1, 2 * n), 77, dtype=npdt)
+        arr = base[::-2][:n]
+        arr[...] = conv
+    else:
+        raise ValueError("layout " + lay)
+    if dt == "ro":
+        arr.flags.writeable = False
+    return arr
+
+
+STATE = types.SimpleNamespace(np=None, dc=None, FV={}, npv=None, npvnew=None, npvint=None, helper=None)
 
 
 def prepare(need_sizes=FV_SIZES_ALL, need_shapes=TUP_SHAPES):
@@ -420,6 +504,10 @@ def prepare(need_sizes=FV_SIZES_ALL, need_shapes=TUP_SHAPES):
         algorithm.load("c20npvint", StringIO(NPV3_CODE), idummy, 0, 0.0, 0)
     except Collected:
         pass
+    try:
+        BUILDER.load("c20helper", HELPER_CODE)
+    except Collected:
+        pass
     mods, BUILDER.collect = BUILDER.collect, None
     parallel(mods)
     for n in need_sizes:
@@ -427,6 +515,7 @@ def prepare(need_sizes=FV_SIZES_ALL, need_shapes=TUP_SHAPES):
     STATE.npv = algorithm.load("c20npv", StringIO(NPV_CODE), dummy, 0, 0.0, 0, dummy)
     STATE.npvnew = algorithm.load("c20npvnew", StringIO(NPV2_CODE), dummy, 0.0)
     STATE.npvint = algorithm.load("c20npvint", StringIO(NPV3_CODE), idummy, 0, 0.0, 0)
+    STATE.helper = BUILDER.load("c20helper", HELPER_CODE)
     # stage C: tuple vectors
     BUILDER.collect = []
     for shape, ref in need_shapes:
@@ -532,8 +621,14 @@ def idx_tok(t):
 class SView:
     """shadow of a numpy view: block (a Python list object) + range of indices into it"""
 
-    def __init__(self, blk, rng):
-        self.blk, self.rng = blk, rng
+    def __init__(self, blk, rng, dt="f8"):
+        self.blk, self.rng, self.dt = blk, rng, dt
+
+    def code(self):
+        return DTYPES[self.dt][0]
+
+    def fits(self, k):
+        return DTYPES[self.dt][3] <= k <= DTYPES[self.dt][4]
 
     def vals(self):
         return [self.blk[i] for i in self.rng]
@@ -745,11 +840,21 @@ class Exec:
         L = parse_list(tk[3]) if how != "zero" else []
         if how == "zero" and len(tk) != 3 or how != "zero" and len(tk) != 4:
             raise ValueError("new")
-        if how not in self.CTOR_KINDS:
+        nb = None
+        if how.startswith("nb_"):            # nb_<element type>_<layout>: a buffer object from make_buffer
+            parts = how.split("_")
+            if len(parts) != 3 or parts[1] not in DTYPES or parts[2] not in LAYOUTS:
+                raise ValueError("new kind")
+            nb = (parts[1], parts[2])
+            if (DTYPES[nb[0]][2] is not None or nb[0] == "ro") and nb[1] != "c":
+                raise Skip("na")
+        elif how not in self.CTOR_KINDS:
             raise ValueError("new kind")
         if self.kind == "dyn" and how in ("args", "iargs", "fac"):
             raise Skip("na")
         if not ok_vals(L):
+            raise Skip("skip")
+        if nb and not all(DTYPES[nb[0]][3] <= e <= DTYPES[nb[0]][4] for e in L):
             raise Skip("skip")
         if how == "fac" and len(L) != self.n:
             raise Skip("skip")
@@ -758,6 +863,8 @@ class Exec:
         # the FieldVector buffer constructor wants a one-dimensional buffer of doubles
         if self.kind == "dyn":
             bad = None if how in ("list", "ilist", "zero") else "ERR:Type"
+        elif nb:
+            bad = None if DTYPES[nb[0]][0] in (0, 8) else "ERR:Value"
         else:
             bad = "ERR:Value" if how in ("npi", "npf32", "np2d") else None
 
@@ -770,6 +877,8 @@ class Exec:
                 v = STATE.dc.FieldVector([float(e) for e in L])
                 if type(v) is not T:
                     return "WRONGCLASS(%s)" % type(v).__name__
+            elif nb:
+                v = T(make_buffer(self.np, nb[0], nb[1], L))
             else:
                 v = T(self.operand(how, L))
             if type(v) is not T:
@@ -1610,15 +1719,18 @@ class Exec:
         if len(tk) != 4:
             raise ValueError("aset")
         self.need(self.sh.a[a])
-        if abs(k) > BOUND or abs(i) > (1 << 40):
+        v = self.sh.a[a]
+        if abs(k) > BOUND or abs(i) > (1 << 40) or not v.fits(k):
             raise Skip("skip")
+        kk = int(k) if DTYPES[v.dt][5] else float(k)
 
         def impl():
-            self.a[a][i] = float(k)
+            self.a[a][i] = kk
             return self.alist(self.a[a])
 
         def exp():
-            v = self.sh.a[a]
+            if v.code() == 8:
+                return "ERR:Value"            # assignment destination is read-only
             p = py_index(i, len(v.rng))
             if p is None:
                 return "ERR:Index"
@@ -1634,131 +1746,124 @@ class Exec:
         self.need(self.sh.a[a])
         return self.both(lambda: self.alist(self.a[a]), lambda: fmt_list(self.sh.a[a].vals()))
 
+    def op_ndt(self, tk):
+        """array register a := a fresh buffer object of element type DT and layout LAY holding the numbers of register b
+        (NumPy arrays of the common dtypes incl. a read-only one, array.array of several typecodes)"""
+        self.only("fv", "dyn")
+        a, b, dt, lay = reg(tk[1], "a", NA), reg(tk[2], "a", NA), tk[3], tk[4]
+        if len(tk) != 5 or dt not in DTYPES or lay not in LAYOUTS:
+            raise ValueError("ndt")
+        if (DTYPES[dt][2] is not None or dt == "ro") and lay != "c":
+            raise Skip("na")
+        self.need(self.sh.a[b])
+        A = self.sh.a[b].vals()
+        if not all(DTYPES[dt][3] <= e <= DTYPES[dt][4] for e in A):
+            raise Skip("skip")
+
+        def impl():
+            arr = make_buffer(self.np, dt, lay, [float(e) for e in self.a[b].tolist()])
+            self.a[a] = arr
+            return self.alist(arr)
+
+        def exp():
+            blk = list(A)
+            self.sh.a[a] = SView(blk, range(len(blk)), dt)
+            return fmt_list(blk)
+        return self.both(impl, exp)
+
     # -------------------------------------------------- NumPy-backed C++ vector (NumPyVector in a generated module)
-    def _npv(self, a, op, k=0.0, i=0, b=None):
+    def _npv(self, pathb, a, op, k=0.0, i=0, b=None):
+        """path A: algorithm module generated by dune.generator (argument pybind11::array_t<double>&: pybind11 converts a
+        buffer of another element type before the call); path B: NumPyVector( pybind11::buffer ) on the object itself"""
         arr = self.a[a]
-        return STATE.npv(arr, op, float(k), int(i), arr if b is None else self.a[b])
+        f = STATE.helper.npvbuf if pathb else STATE.npv
+        return f(arr, op, float(k), int(i), arr if b is None else self.a[b])
 
-    def op_nscale(self, tk):
-        self.only("fv", "dyn")
-        a, k = reg(tk[1], "a", NA), int(tk[2])
-        if len(tk) != 3:
-            raise ValueError("nscale")
-        self.need(self.sh.a[a])
-        v = self.sh.a[a]
-        R = [e * k for e in v.vals()]
-        if abs(k) > BOUND or not ok_vals(R):
-            raise Skip("skip")
-
-        def impl():
-            self._npv(a, 0, k)
-            return self.alist(self.a[a])
-
-        def exp():
-            for p, r in zip(v.rng, R):
-                v.blk[p] = r
-            return fmt_list(v.vals())
-        return self.both(impl, exp)
-
-    def op_nset(self, tk):
-        self.only("fv", "dyn")
-        a, i, k = reg(tk[1], "a", NA), int(tk[2]), int(tk[3])
-        if len(tk) != 4:
-            raise ValueError("nset")
-        self.need(self.sh.a[a])
-        v = self.sh.a[a]
-        if abs(k) > BOUND or not (0 <= i < len(v.rng)):      # operator[] of the C++ vector is unchecked
-            raise Skip("skip")
-
-        def impl():
-            self._npv(a, 1, k, i)
-            return self.alist(self.a[a])
-
-        def exp():
-            v.blk[v.rng[i]] = k
-            return fmt_list(v.vals())
-        return self.both(impl, exp)
-
-    def op_nget(self, tk):
-        self.only("fv", "dyn")
-        a, i = reg(tk[1], "a", NA), int(tk[2])
-        if len(tk) != 3:
-            raise ValueError("nget")
-        self.need(self.sh.a[a])
-        v = self.sh.a[a]
-        if not (0 <= i < len(v.rng)):
-            raise Skip("skip")
-        return self.both(lambda: canon(self._npv(a, 9, 0, i)), lambda: str(v.blk[v.rng[i]]))
-
-    def op_nnorms(self, tk):
+    def _nvec(self, tk, which, pathb):
+        """operations of a NumPyVector<double> over array register a.  The vector shares the memory of a buffer of
+        doubles; of a buffer of another element type it holds a converted copy: it shows the same numbers, what it
+        writes is seen through the vector (the returned one norm) but never reaches the buffer; a read-only buffer is
+        rejected with ValueError."""
         self.only("fv", "dyn")
         a = reg(tk[1], "a", NA)
-        if len(tk) != 2:
-            raise ValueError("nnorms")
+        nargs = {"nscale": 3, "nset": 4, "nget": 3, "nnorms": 2, "naxpy": 4, "nadd": 3, "nrun": 2}[which]
+        if len(tk) != nargs:
+            raise ValueError(which)
+        k, i, b = 0, 0, None
+        if which == "nscale":
+            k = int(tk[2])
+        elif which == "nset":
+            i, k = int(tk[2]), int(tk[3])
+        elif which == "nget":
+            i = int(tk[2])
+        elif which == "naxpy":
+            k, b = int(tk[2]), reg(tk[3], "a", NA)
+        elif which == "nadd":
+            b = reg(tk[2], "a", NA)
         self.need(self.sh.a[a])
+        if b is not None:
+            self.need(self.sh.a[b])
+        va = self.sh.a[a]
+        vb = self.sh.a[b] if b is not None else None
+        A = va.vals()
+        R = None
+        if which == "nscale":
+            R = [e * k for e in A]
+            if abs(k) > BOUND or not ok_vals(R):
+                raise Skip("skip")
+        elif which == "nset":
+            if abs(k) > BOUND or not (0 <= i < len(A)):      # operator[] of the C++ vector is unchecked
+                raise Skip("skip")
+            R = list(A)
+            R[i] = k
+        elif which == "nget":
+            if not (0 <= i < len(A)):
+                raise Skip("skip")
+        elif which in ("naxpy", "nadd"):
+            if len(va.rng) != len(vb.rng) or abs(k) > BOUND:
+                raise Skip("skip")
+            if va.blk is vb.blk and va.rng != vb.rng:       # overlapping but different views: order dependent
+                raise Skip("skip")
+            kk = k if which == "naxpy" else 1
+            R = [p + kk * q for p, q in zip(A, vb.vals())]
+            if not ok_vals(R):
+                raise Skip("skip")
+        elif which == "nrun":
+            R = [e + j for j, e in enumerate(A)]
+            if not ok_vals(R):
+                raise Skip("skip")
+        readonly = va.code() == 8 or (vb is not None and vb.code() == 8)
+        opno = {"nscale": 0, "nset": 1, "naxpy": 2, "nadd": 3, "nrun": 4}.get(which)
 
         def impl():
-            return fmt_list([canon(self._npv(a, 8)), canon(self._npv(a, 5)), canon(self._npv(a, 6)),
-                             canon(self._npv(a, 7))])
+            if which == "nget":
+                return canon(self._npv(pathb, a, 9, 0, i))
+            if which == "nnorms":
+                return fmt_list([canon(self._npv(pathb, a, 8)), canon(self._npv(pathb, a, 5)), canon(self._npv(pathb, a, 6)),
+                                 canon(self._npv(pathb, a, 7))])
+            ret = self._npv(pathb, a, opno, k, i, b)
+            if va.code() == 0:
+                if canon(ret) != str(sum(abs(e) for e in R)):
+                    return "BADRET(%s)" % canon(ret)
+                return self.alist(self.a[a])
+            return "w:%s:%s" % (canon(ret), self.alist(self.a[a]))
 
         def exp():
-            A = self.sh.a[a].vals()
-            return fmt_list([len(A), sum(abs(e) for e in A), max([abs(e) for e in A] + [0]), sum(e * e for e in A)])
-        return self.both(impl, exp)
-
-    def op_naxpy(self, tk):
-        self.only("fv", "dyn")
-        a, k, b = reg(tk[1], "a", NA), int(tk[2]), reg(tk[3], "a", NA)
-        if len(tk) != 4:
-            raise ValueError("naxpy")
-        self.need(self.sh.a[a], self.sh.a[b])
-        va, vb = self.sh.a[a], self.sh.a[b]
-        if len(va.rng) != len(vb.rng) or abs(k) > BOUND:
-            raise Skip("skip")
-        if va.blk is vb.blk and va.rng != vb.rng:       # overlapping but different views: order dependent
-            raise Skip("skip")
-        R = [p + k * q for p, q in zip(va.vals(), vb.vals())]
-        if not ok_vals(R):
-            raise Skip("skip")
-
-        def impl():
-            self._npv(a, 2, k, 0, b)
-            return self.alist(self.a[a])
-
-        def exp():
-            for p, r in zip(va.rng, R):
-                va.blk[p] = r
-            return fmt_list(va.vals())
-        return self.both(impl, exp)
-
-    def op_nadd(self, tk):
-        """x += y on two NumPy-backed C++ vectors"""
-        self.only("fv", "dyn")
-        a, b = reg(tk[1], "a", NA), reg(tk[2], "a", NA)
-        if len(tk) != 3:
-            raise ValueError("nadd")
-        self.need(self.sh.a[a], self.sh.a[b])
-        va, vb = self.sh.a[a], self.sh.a[b]
-        if len(va.rng) != len(vb.rng):
-            raise Skip("skip")
-        if va.blk is vb.blk and va.rng != vb.rng:       # overlapping but different views: order dependent
-            raise Skip("skip")
-        R = [p + q for p, q in zip(va.vals(), vb.vals())]
-        if not ok_vals(R):
-            raise Skip("skip")
-
-        def impl():
-            self._npv(a, 3, 0, 0, b)
-            return self.alist(self.a[a])
-
-        def exp():
-            for p, r in zip(va.rng, R):
-                va.blk[p] = r
-            return fmt_list(va.vals())
+            if readonly:
+                return "ERR:Value"
+            if which == "nget":
+                return str(A[i])
+            if which == "nnorms":
+                return fmt_list([len(A), sum(abs(e) for e in A), max([abs(e) for e in A] + [0]), sum(e * e for e in A)])
+            if va.code() == 0:
+                for p, r in zip(va.rng, R):
+                    va.blk[p] = r
+                return fmt_list(va.vals())
+            return "w:%d:%s" % (sum(abs(e) for e in R), fmt_list(A))
         return self.both(impl, exp)
 
     def op_nnew(self, tk):
-        """a NumPyVector constructed with a size owns a fresh array: a := k * b as a new, independent array"""
+        """a NumPyVector constructed with a size owns a fresh array: a := k * b as a new, independent array of doubles"""
         self.only("fv", "dyn")
         a, b, k = reg(tk[1], "a", NA), reg(tk[2], "a", NA), int(tk[3])
         if len(tk) != 4:
@@ -1777,6 +1882,8 @@ class Exec:
             return self.alist(arr)
 
         def exp():
+            if vb.code() == 8:
+                return "ERR:Value"
             self.sh.a[a] = SView(R, range(len(R)))
             return fmt_list(R)
         return self.both(impl, exp)
@@ -1795,7 +1902,7 @@ class Exec:
             raise Skip("skip")
 
         def impl():
-            ia = self.a[a].astype(self.np.int64)
+            ia = self.np.asarray(self.a[a]).astype(self.np.int64)
             f = STATE.npvint
             res = [canon(f(ia, 8, 0.0, 0)), canon(f(ia, 5, 0.0, 0)), canon(f(ia, 6, 0.0, 0)), canon(f(ia, 7, 0.0, 0))]
             res += [canon(f(ia, 9, 0.0, j)) for j in range(len(ia))]
@@ -1807,26 +1914,31 @@ class Exec:
                             + [sum(abs(e) for e in R)] + A)
         return self.both(impl, exp)
 
-    def op_nrun(self, tk):
-        """the loop of the repo's pythontests (x[i] += i through a NumPyVector)"""
+    def op_nvscale(self, tk):
+        """NumPyVector<double> constructed directly over the vector object x (a FieldVector is a buffer of doubles: the
+        C++ vector shares its cells; a DynamicVector is no buffer): x *= k through the NumPy-backed vector"""
         self.only("fv", "dyn")
-        a = reg(tk[1], "a", NA)
-        if len(tk) != 2:
-            raise ValueError("nrun")
-        self.need(self.sh.a[a])
-        v = self.sh.a[a]
-        R = [e + j for j, e in enumerate(v.vals())]
-        if not ok_vals(R):
+        x, k = reg(tk[1], "x", NV), int(tk[2])
+        if len(tk) != 3:
+            raise ValueError("nvscale")
+        self.need(self.sh.x[x])
+        A = self.sh.x[x]
+        R = [e * k for e in A]
+        if abs(k) > BOUND or not ok_vals(R):
             raise Skip("skip")
 
         def impl():
-            self._npv(a, 4)
-            return self.alist(self.a[a])
+            o = self.x[x]
+            ret = STATE.helper.npvbuf(o, 0, float(k), 0, o)
+            if canon(ret) != str(sum(abs(e) for e in R)):
+                return "BADRET(%s)" % canon(ret)
+            return self.vlist(o)
 
         def exp():
-            for p, r in zip(v.rng, R):
-                v.blk[p] = r
-            return fmt_list(v.vals())
+            if self.kind == "dyn":
+                return "ERR:Type"
+            A[:] = R
+            return fmt_list(A)
         return self.both(impl, exp)
 
     # ---------------------------------------------------------------------------------------- tuple vectors
@@ -2102,6 +2214,16 @@ class Exec:
         return " ".join(ii), " ".join(ee)
 
 
+def _install_nvec_ops():
+    def mk(which, pathb):
+        return lambda self, tk: self._nvec(tk, which, pathb)
+    for which in ("nscale", "nset", "nget", "nnorms", "naxpy", "nadd", "nrun"):
+        setattr(Exec, "op_" + which, mk(which, False))
+        setattr(Exec, "op_" + which + "b", mk(which, True))
+
+
+_install_nvec_ops()
+
 STATS = {}
 
 
@@ -2281,6 +2403,10 @@ def gen_program(r, idx, tier):
                    "list", "tuple", "args", "np", "nps2", "nps3", "npsm1", "npsm2", "buf", "zero", "fac",
                    "ilist", "ituple", "iargs", "iargs", "npi", "npf32", "np2d"]
                   if kind == "fv" else ["list", "list", "list", "list", "zero", "zero", "ilist", "tuple", "np", "buf", "npi"])
+    dts = sorted(DTYPES)
+    for _ in range(8):       # buffers of every element type and layout
+        dt = r.pick(dts)
+        ctor_kinds.append("nb_%s_%s" % (dt, "c" if (DTYPES[dt][2] is not None or dt == "ro") else r.pick(LAYOUTS)))
     okinds_all = ["list", "ilist", "tuple", "np", "nps2", "npsm1", "buf"]
 
     def okind():
@@ -2304,15 +2430,29 @@ def gen_program(r, idx, tier):
             k = r.pick(sorted(ba))
         return "a%d" % k
 
-    def ctor(x):
+    def ctor_valid(how):
+        """does this constructor call (probably) yield a vector?"""
+        if kind == "dyn":
+            return how in ("list", "ilist", "zero")
+        if how.startswith("nb_"):
+            return DTYPES[how.split("_")[1]][0] in (0, 8)
+        return how not in ("npi", "npf32", "np2d")
+
+    def ctor(first=False):
         how = r.pick(ctor_kinds)
-        stat("ctor_" + how)
+        while first and not ctor_valid(how):        # the first constructor of a program yields a vector
+            how = r.pick(ctor_kinds)
+        k = r.weighted([(0, 4), (1, 3), (2, 2), (3, 1)])
+        if ctor_valid(how):
+            bx.add(k)
+        x = "x%d" % k
+        stat("ctor_" + (how if not how.startswith("nb_") else "nb_" + how.split("_")[1]))
         if how == "zero":
             return "new %s zero" % x
         return "new %s %s %s" % (x, how, gen_list(r, n, exact=(how == "fac" or (kind == "dyn" and r.coin(3, 4)))))
-    segs = [ctor(xr(True))]
+    segs = [ctor(True)]
     if r.coin(2, 3):
-        segs.append(ctor(xr(True)))
+        segs.append(ctor(True))
     ops = [("new", 6), ("copy", 3), ("mcopy", 3), ("mcopya", 2), ("alias", 3), ("add", 3), ("sub", 3), ("addl", 2), ("subl", 2),
            ("raddl", 2), ("rsubl", 3), ("addo", 2), ("subo", 2), ("raddo", 1), ("rsubo", 1),
            ("mul", 2), ("rmul", 2), ("div", 2), ("ldiv", 1), ("muli", 2), ("rmuli", 2), ("divi", 1), ("neg", 2),
@@ -2323,14 +2463,15 @@ def gen_program(r, idx, tier):
            ("slice", 4), ("eq", 2), ("ne", 2), ("eql", 2), ("nel", 2), ("eqo", 1), ("neo", 1), ("norms", 3), ("dot", 2),
            ("dotl", 2), ("rdotl", 2), ("doto", 1), ("float", 1),
            ("view", 5), ("npcopy", 3), ("sl", 6), ("aget", 3), ("aset", 6), ("alist", 1), ("nscale", 3), ("nset", 3),
-           ("nget", 2), ("nnorms", 2), ("naxpy", 3), ("nadd", 2), ("nnew", 2), ("nint", 2), ("nrun", 2)]
+           ("nget", 2), ("nnorms", 2), ("naxpy", 3), ("nadd", 2), ("nnew", 2), ("nint", 1), ("nrun", 2),
+           ("ndt", 6), ("nvscale", 2)]
     while len(segs) < nseg:
         op = r.weighted(ops)
-        if op in ("aget", "aset", "alist", "nscale", "nset", "nget", "nnorms", "naxpy", "nadd", "nnew", "nint", "nrun") and not ba:
+        if op in ("aget", "aset", "alist", "nscale", "nset", "nget", "nnorms", "naxpy", "nadd", "nnew", "nint", "nrun", "ndt") and not ba:
             op = r.pick(["view", "sl", "npcopy"]) if kind == "fv" else "npcopy"
         stat("op_" + op)
         if op == "new":
-            segs.append(ctor(xr(True)))
+            segs.append(ctor())
         elif op in ("copy", "mcopy", "alias"):
             y = xr()
             segs.append("%s %s %s" % (op, xr(True), y))
@@ -2394,18 +2535,30 @@ def gen_program(r, idx, tier):
             segs.append("aget %s %d" % (ar(), gen_index_np(r, n)))
         elif op == "aset":
             segs.append("aset %s %d %d" % (ar(), gen_index_np(r, max(1, n - r.below(2))), gen_val(r)))
-        elif op in ("alist", "nnorms", "nrun"):
-            segs.append("%s %s" % (op, ar()))
-        elif op in ("nscale", "nint"):
-            segs.append("%s %s %d" % (op, ar(), gen_scalar(r)))
+        elif op == "ndt":
+            b = ar()
+            dt = r.pick(dts)
+            stat("ndt_" + dt)
+            segs.append("ndt %s %s %s %s" % (ar(True), b, dt,
+                                             "c" if (DTYPES[dt][2] is not None or dt == "ro") else r.pick(LAYOUTS)))
+        elif op == "nvscale":
+            segs.append("nvscale %s %d" % (xr(), gen_scalar(r)))
+        elif op == "alist":
+            segs.append("alist %s" % ar())
+        elif op in ("nnorms", "nrun"):
+            segs.append("%s%s %s" % (op, "b" if r.coin() else "", ar()))
+        elif op == "nint":
+            segs.append("nint %s %d" % (ar(), gen_scalar(r)))
+        elif op == "nscale":
+            segs.append("nscale%s %s %d" % ("b" if r.coin() else "", ar(), gen_scalar(r)))
         elif op == "nset":
-            segs.append("nset %s %d %d" % (ar(), r.range(0, max(0, n - 1)), gen_val(r)))
+            segs.append("nset%s %s %d %d" % ("b" if r.coin() else "", ar(), r.range(0, max(0, n - 1)), gen_val(r)))
         elif op == "nget":
-            segs.append("nget %s %d" % (ar(), r.range(0, max(0, n - 1))))
+            segs.append("nget%s %s %d" % ("b" if r.coin() else "", ar(), r.range(0, max(0, n - 1))))
         elif op == "naxpy":
-            segs.append("naxpy %s %d %s" % (ar(), gen_scalar(r), ar()))
+            segs.append("naxpy%s %s %d %s" % ("b" if r.coin() else "", ar(), gen_scalar(r), ar()))
         elif op == "nadd":
-            segs.append("nadd %s %s" % (ar(), ar()))
+            segs.append("nadd%s %s %s" % ("b" if r.coin() else "", ar(), ar()))
         elif op == "nnew":
             b = ar()
             segs.append("nnew %s %s %d" % (ar(True), b, gen_scalar(r)))
